@@ -64,6 +64,13 @@ def handle (cmd : String) (args : List V) : Option V :=
   | "rle.runs", [fs] => do
       let fs ← Wire.frames? fs
       pure (V.list ((runs fs).map (fun r => V.list [.int r.1, .int r.2.length])))
+  | "rle.see", [k, raw] => do
+      -- raw rows (all components, any bit patterns) -> the library's view, the segment table, written bytes, declared size
+      let k ← k.nat?
+      let rows ← (← raw.list?).mapM Wire.u32s?
+      let fs := see rows
+      pure (V.list [Wire.ofFrames fs, V.list ((runs fs).map (fun r => V.list [.int r.1, .int r.2.length])),
+                    .int (encRuns fs).length, .int (sizeRuns k fs)])
   | "rle.canon", [n, tbl] => do
       let n ← n.nat?
       let tbl ← (← tbl.list?).mapM Wire.pair?
